@@ -84,6 +84,19 @@ class Gen:
         if r.random() < 0.4:
             dum = "".join(c for c in "iOorw" if r.random() < 0.25)
             lines.append("cfg dum %s" % esc(dum))
+        # texts the welcome burst, ADMIN, INFO, MOTD and LUSERS quote from the configuration
+        if r.random() < 0.3:
+            lines.append("cfg admin_info2 %s" % esc(r.choice(["second floor", "x", ":colon first"])))
+        if r.random() < 0.3:
+            lines.append("cfg admin_email %s" % esc(r.choice(["adm@example.org", "a b c"])))
+        if r.random() < 0.2:
+            lines.append("cfg admin_info %s" % esc(r.choice(["Main admin", "somebody somewhere"])))
+        if r.random() < 0.2:
+            lines.append("cfg motd %s" % esc(r.choice(["Hello, world!", ":starts with colon", "two  blanks", "x"])))
+        if r.random() < 0.2:
+            lines.append("cfg network %s" % esc(r.choice(["TestNet", "N"])))
+        if r.random() < 0.15:
+            lines.append("cfg info %s" % esc(r.choice(["A test server", "i"])))
         # operators
         self.opers = []
         if r.random() < 0.8:
